@@ -121,7 +121,7 @@ func C07(c *core.Ctx) {
 					return
 				}
 				opt := w.Opt
-				kind := []string{"rw", "ro", "rw-changed", "rw-other-compression", "ro-other-compression"}[w.R.Intn(5)]
+				kind := []string{"rw", "ro", "rw-changed", "rw-other-compression", "ro-other-compression", "rw-other-table-options"}[w.R.Intn(6)]
 				kinds += kind + ","
 				var h0 string
 				switch kind {
@@ -138,6 +138,13 @@ func C07(c *core.Ctx) {
 						opt.ReadOnly = true
 						h0, _ = treeHash(opt.Dir, opt.ValueDir)
 					}
+				case "rw-other-table-options":
+					// settings that only govern how NEW tables and values are written: existing data
+					// must read the same
+					opt.BlockSize = []int{256, 1024, 4096}[w.R.Intn(3)]
+					opt.BloomFalsePositive = []float64{0, 0.01, 0.3}[w.R.Intn(3)]
+					opt.ValueThreshold = []int64{32, 64, 1024}[w.R.Intn(3)]
+					opt.BaseTableSize = []int64{2 << 10, 16 << 10}[w.R.Intn(2)]
 				case "rw-changed":
 					opt.NumCompactors = 2
 					opt.NumLevelZeroTables = 2
@@ -161,7 +168,7 @@ func C07(c *core.Ctx) {
 				}
 				st := hist.CheckState(c, "C07|after-reopen|"+kind, w.DB, w.M, hist.StateOpts{Managed: managed})
 				c.Count("invariance.reads_checked", st.Gets+st.IterItems)
-				if kind == "rw-other-compression" {
+				if kind == "rw-other-compression" || kind == "rw-other-table-options" {
 					_ = w.RandomCommit(df, df)
 					_ = w.DB.Close()
 					db, err = drv.Open(w.Opt, managed)
